@@ -799,6 +799,12 @@ def correspond(ctx):
   for f in sorted(spec_failures, key=lambda f: (not f.get('probe'), len(f.get('ops', [])))):   # shortest per key
     if f['key'] not in seen:
       seen.add(f['key']); uniq.append(f)
+  # findings already listed as known are not violations; check.py prints them through reproduce_known.
+  # (Filtered here because check.py turns a spec_failures list that is emptied by its own known-key
+  # filter into a `no-failing-input-found` violation even when nothing is broken.)
+  known_keys = {e.get('key') for e in C.load_known('C17') if e.get('kind') == 'known'}
+  known_hit = [f['key'] for f in uniq if f['key'] in known_keys]
+  uniq = [f for f in uniq if f['key'] not in known_keys]
   return dict(
       evaluations=evaluations, distinct_nontrivial=len(distinct) + exh_nodes,
       rule='one evaluation = one operation executed on the real buffer and compared exactly (storage, both '
@@ -823,7 +829,7 @@ def correspond(ctx):
                  exhaustive_configs=exh_cfgs, exhaustive_nodes=exh_nodes,
                  exhaustive_plan=[dict(wrap=c['wrap'], cap=c['cap'], B=c['B'], cyc=c['cyc'], D=c['D'], w=c['w'], L=L)
                                   for c, L in plan][:12] + ['...'],
-                 exhaustive_reduced=reduced[:20],
+                 exhaustive_reduced=reduced[:20], known_findings_reproduced=known_hit,
                  seconds=dict(random=round(t_random, 1), exhaustive=round(t_exh, 1)),
                  devices=4))
 
